@@ -242,9 +242,18 @@ class USet:
         return [[frac(v) for v in row] for row in a.params], -off.constant() / a.k
 
     def z3(self, env):
+        """Membership formula over env's z terms.  k*|e|_2 + off <= 0 (k > 0) is written without a
+        square-root variable:  off <= 0  and  k^2 e'e <= off^2."""
+        z3 = env.z3
         out = []
         for c in self.cons:
-            out += cons_z3(c, env)
+            if c.is_atom() and c.expr.kind == 'norm2' and c.expr.k > 0 and c.sense == 'le':
+                a = c.expr
+                off = env.p(a.off.reshape(-1)[0])
+                ss = z3.Sum([env.p(e) * env.p(e) for e in a.arg.reshape(-1)])
+                out += [off <= 0, z3.RealVal(str(a.k * a.k)) * ss <= off * off]
+            else:
+                out += cons_z3(c, env)
         return out
 
     def contains(self, point, tol=0):
